@@ -91,8 +91,16 @@ pub fn apply_config(name: &str) {
 }
 
 pub fn build_tree(tag: &str) -> std::path::PathBuf {
+    build_tree_with(tag, false)
+}
+
+/// `custom_404`: the served directory has its own 404.html (read from disk for every miss)
+pub fn build_tree_with(tag: &str, custom_404: bool) -> std::path::PathBuf {
     let root = crate::tree::scratch_root(tag);
     let mut t = crate::corpus::tree();
+    if custom_404 {
+        t.file("404.html", &crate::tree::coded_text(3000, 404));
+    }
     t.entries.remove("four-mib.bin");
     t.file("targets/small.txt", b"small target behind a link\n");
     t.file("targets/big.bin", &crate::tree::coded(30000, 5));
@@ -246,9 +254,15 @@ fn to_steps(e: &Exec) -> Vec<Step> {
 
 /// one execution of the given requests (one thread each) under `prefix`, in a forked child
 pub fn execute(reqs: &[Vec<Vec<u8>>], prefix: &[usize]) -> Result<Exec, String> {
+    execute_fs(reqs, prefix, false)
+}
+
+/// `fs_points`: every file-system call of the request threads is a scheduling point too (sysio.rs)
+pub fn execute_fs(reqs: &[Vec<Vec<u8>>], prefix: &[usize], fs_points: bool) -> Result<Exec, String> {
     let reqs2: Vec<Vec<Vec<u8>>> = reqs.to_vec();
     let prefix2 = prefix.to_vec();
     let out = fork_run(move || {
+        crate::sysio::enable(fs_points);
         let bodies: Vec<Box<dyn FnOnce() -> Vec<Vec<u8>> + Send + 'static>> = reqs2.iter().cloned().map(|rs| Box::new(move || rs.iter().map(|r| serve(r)).collect::<Vec<_>>()) as Box<dyn FnOnce() -> Vec<Vec<u8>> + Send + 'static>).collect();
         let x = run_schedule(bodies, &prefix2, Duration::from_secs(5));
         let v = json!({
@@ -279,7 +293,7 @@ pub struct Explored {
 }
 
 fn requests_of(names: &[String]) -> Vec<Vec<(String, Vec<u8>)>> {
-    let alpha = alphabet();
+    let alpha = every_request();
     names.iter().map(|entry| entry.split('+').map(|n| (n.to_string(), alpha.iter().find(|(a, _)| *a == n).map(|(_, r)| r.clone()).unwrap_or_default())).collect()).collect()
 }
 
@@ -321,6 +335,10 @@ fn solos_of(names: &[String]) -> Result<std::collections::HashMap<String, Vec<u8
 }
 
 pub fn explore(names: &[String], bound: usize, max_exec: u64) -> Result<Explored, String> {
+    explore_fs(names, bound, max_exec, false)
+}
+
+pub fn explore_fs(names: &[String], bound: usize, max_exec: u64, fs_points: bool) -> Result<Explored, String> {
     let reqs: Vec<Vec<Vec<u8>>> = requests_of(names).into_iter().map(|seq| seq.into_iter().map(|(_, r)| r).collect()).collect();
     let solos = solos_of(names)?;
     let mut ex = Explored { executions: 0, transitions: 0, infeasible: 0, max_steps: 0, capped: false, fails: vec![], distinct_orders: 0 };
@@ -332,13 +350,13 @@ pub fn explore(names: &[String], bound: usize, max_exec: u64) -> Result<Explored
             ex.capped = true;
             break;
         }
-        let x = execute(&reqs, &prefix)?;
+        let x = execute_fs(&reqs, &prefix, fs_points)?;
         if let Some(d) = &x.diverged {
             return Err(format!("schedule diverged while replaying a prefix: {}", d));
         }
         if first {
             // determinism: the same schedule twice gives the same observation
-            let y = execute(&reqs, &prefix)?;
+            let y = execute_fs(&reqs, &prefix, fs_points)?;
             let flat = |e: &Exec| -> Vec<Vec<u8>> { e.results.iter().flatten().map(|r| mask_timestamps(r)).map(|r| { let mut l: Vec<&[u8]> = r.split(|c| *c == b'\n').collect(); l.sort(); l.concat() }).collect() };
             if flat(&x) != flat(&y) || x.steps.len() != y.steps.len() {
                 return Err("the same schedule executed twice gave different observations".into());
@@ -498,13 +516,54 @@ pub fn run(ctx: &mut Ctx) {
             }
         }
     }
+    // (3) interleavings at the level of file-system calls: every read / lseek / statx of the two
+    //     request threads is a scheduling point as well, on a tree that has its own 404.html
+    //     (so that a miss reads a file too)
+    let root2 = build_tree_with("c08fs", true);
+    std::env::set_current_dir(&root2).unwrap();
+    let fs_names: Vec<&str> = if thorough { vec!["not-found", "head-missing", "get-file", "get-range", "get-big", "dir-index", "link-small", "get-html-fallback", "builtin-index"] } else { vec!["not-found", "head-missing", "get-file", "get-range", "dir-index", "link-small"] };
+    let fs_bound = 2;
+    ctx.bound("fs_level_interleavings", json!({"requests": fs_names, "groups": "every unordered pair incl. the same request twice", "preemption_bound": fs_bound, "scheduling_points": "hook points + every read, lseek, pread and statx of the request threads", "tree": "the C08 tree plus a 3000-byte 404.html"}));
+    for (i, a) in fs_names.iter().enumerate() {
+        for b in fs_names.iter().skip(i) {
+            let group = vec![a.to_string(), b.to_string()];
+            let j = json!({"kind": "interleaving", "fs_points": true, "requests": group, "preemption_bound": fs_bound});
+            if ctx.verdict_established(6) {
+                break;
+            }
+            if !ctx.begin(j.to_string().as_bytes()) {
+                continue;
+            }
+            ctx.nontrivial();
+            match explore_fs(&group, fs_bound, 400_000, true) {
+                Err(e) => ctx.machinery_error(format!("{}: {}", j, e)),
+                Ok(ex) => {
+                    ctx.add("states", ex.executions);
+                    ctx.add("transitions", ex.transitions);
+                    ctx.add("traces_validated_against_impl", ex.executions);
+                    ctx.add("fs_level_schedules", ex.executions);
+                    ctx.add("infeasible_schedules", ex.infeasible);
+                    if ex.capped {
+                        ctx.machinery_error(format!("{}: execution cap hit", j));
+                    }
+                    ctx.sample(|| json!({"kind":"interleaving","fs_points":true,"requests":group,"preemption_bound":fs_bound,"schedules_executed":ex.executions,"longest_schedule":ex.max_steps}));
+                    ctx.outcome(if ex.fails.is_empty() { "fs-interleaving:isolated" } else { "fs-interleaving:influenced" });
+                    for (sig, detail, schedule) in ex.fails {
+                        ctx.fail(&sig, || json!({"kind":"interleaving","fs_points":true,"requests":group,"schedule":schedule}), detail);
+                    }
+                }
+            }
+        }
+    }
     std::env::set_current_dir("/").unwrap();
+    let _ = std::fs::remove_dir_all(&root2);
     let _ = std::fs::remove_dir_all(&root);
 }
 
 pub fn replay(v: &Value) -> Vec<Failure> {
     drive::default_config();
-    let root = build_tree("c08r");
+    let fs = v["fs_points"].as_bool().unwrap_or(false);
+    let root = build_tree_with("c08r", fs);
     std::env::set_current_dir(&root).unwrap();
     let names: Vec<String> = v["requests"].as_array().map(|a| a.iter().filter_map(|x| x.as_str().map(|s| s.to_string())).collect()).unwrap_or_default();
     let mut out = Vec::new();
@@ -517,8 +576,8 @@ pub fn replay(v: &Value) -> Vec<Failure> {
         let schedule: Vec<usize> = v["schedule"].as_array().map(|a| a.iter().filter_map(|x| x.as_u64().map(|y| y as usize)).collect()).unwrap_or_default();
         if let Ok(solos) = solos_of(&names) {
             // replay the recorded schedule twice: identical observations, then judge
-            let a = execute(&reqs, &schedule);
-            let b = execute(&reqs, &schedule);
+            let a = execute_fs(&reqs, &schedule, fs);
+            let b = execute_fs(&reqs, &schedule, fs);
             if let (Ok(a), Ok(b)) = (a, b) {
                 if a.diverged.is_some() || b.diverged.is_some() {
                     out.push(Failure { signature: "C08:machinery:schedule-diverged-on-replay".into(), case: v.clone(), detail: format!("{:?}", a.diverged), hash: 0 });
